@@ -175,6 +175,34 @@ pub fn shrink_file(exe: &str, path: &str, v: &Violation, profile: &str, deadline
                 }
             }
         }
+        if left(deadline) && plan.reader.vectored {
+            let mut c = plan.clone();
+            c.reader.vectored = false;
+            if same(exe, &c, &sig, &mut tries) {
+                plan = c;
+                steps.push("reader: no native read_vectored".into());
+            }
+        }
+        if left(deadline) && !plan.reader.eintr.is_empty() {
+            // shorten the bursts that remain (binary search on each count)
+            for i in 0..plan.reader.eintr.len() {
+                let (mut lo, mut hi) = (1u32, plan.reader.eintr[i].1);
+                while lo < hi && left(deadline) {
+                    let mid = (lo + hi) / 2;
+                    let mut c = plan.clone();
+                    c.reader.eintr[i].1 = mid;
+                    if same(exe, &c, &sig, &mut tries) {
+                        hi = mid;
+                    } else {
+                        lo = mid + 1;
+                    }
+                }
+                if hi < plan.reader.eintr[i].1 {
+                    steps.push(format!("reader: EINTR burst {} -> {}", plan.reader.eintr[i].1, hi));
+                    plan.reader.eintr[i].1 = hi;
+                }
+            }
+        }
         if left(deadline) && plan.reader.error.is_some() {
             let mut c = plan.clone();
             c.reader.error = None;
